@@ -175,6 +175,9 @@ COMBINATORS = {
     "std::option::Option::map_or_else": ("opt", ("val", ("call", 2)), ("val", ("call0", 1))),
     "std::option::Option::is_some_and": ("opt", ("val", ("call", 1)), ("bool", False)),
     "std::option::Option::is_none_or": ("opt", ("val", ("call", 1)), ("bool", True)),
+    "std::option::Option::unwrap_or": ("opt", ("val", "x"), ("val", ("arg", 1))),
+    "std::result::Result::unwrap_or": ("res", ("val", "x"), ("val", ("arg", 1))),
+    "std::option::Option::ok_or": ("opt", ("wrap", "Ok", "x"), ("wrap", "Err", ("arg", 1))),
     "std::result::Result::map": ("res", ("wrap", "Ok", ("call", 1)), ("wrap", "Err", "x")),
     "std::result::Result::map_err": ("res", ("wrap", "Ok", "x"), ("wrap", "Err", ("call", 1))),
     "std::result::Result::and_then": ("res", ("val", ("call", 1)), ("wrap", "Err", "x")),
@@ -349,6 +352,7 @@ class Normalizer:
         F = self.F
         out = []
         X = None
+        ctx_all = None
         for c in cur.calls:
             if c.bb not in cur.reachable:
                 continue
@@ -363,7 +367,7 @@ class Normalizer:
                 if X is None:
                     X = mir.ExprBuilder(F)
                 clos = {}
-                okc = len(c.args) > max(need)
+                okc = len(c.args) > (max(need) if need else 0)
                 for i in need if okc else ():
                     e = mir.strip(X.operand(cur, c.args[i]))
                     if e[0] == "agg" and e[1].startswith("closure:") and e[4][0] == cur.cdef:
@@ -377,9 +381,13 @@ class Normalizer:
                             okc = False
                         else:
                             clos[i] = (self.norm(cb, True), st)
-                    elif e[0] == "fnitem" and e[1] in F.by_cdef and F.by_cdef[e[1]].kind in ("Fn", "AssocFn") and not e[1].startswith("<") \
-                            and not mir.derive_generated(F.by_cdef[e[1]].span) and e[1] not in ctx and e[1] != host_root:
-                        clos[i] = (self.norm(F.by_cdef[e[1]], True), None)
+                    elif e[0] == "fnitem":
+                        # a function item (`.map(Amount::from_msat)`): the arm calls it
+                        ro = lib.root_operand(cur, c.args[i])
+                        if ro.get("k") == "const" and "fn" in ro:
+                            clos[i] = ("fnitem", ro)
+                        else:
+                            okc = False
                     else:
                         okc = False
                 if okc:
@@ -531,7 +539,12 @@ class Normalizer:
                 cbody, st = clos[src[1]]
                 R = self._new_local(j, "?closure-result")
                 cont = self._new_block(j, ctx)
-                self._call_closure(j, cur_bb, cbody, st, pay if src[0] == "call" else None, R, cont, sp)
+                if cbody == "fnitem":
+                    p = pay if src[0] == "call" else None
+                    j["blocks"][cur_bb]["t"] = {"k": "call", "fn": st["fn"], "args": [p] if p is not None else [], "dest": {"l": R, "p": []}, "rty": "?", "t": cont, "u": None,
+                                                "sp": sp, "fsp": sp, "inl": "combinator-call"}
+                else:
+                    self._call_closure(j, cur_bb, cbody, st, pay if src[0] == "call" else None, R, cont, sp)
                 return {"k": "move", "pl": {"l": R, "p": []}}, cont
             cur_bb = b0
             if act[0] == "none":
